@@ -193,20 +193,18 @@ func (i *Inserter) ingestTableFromBlocks(columns []string, pk []uint32) ([]byte,
 	tblIdx := i.sortBlocks()
 	i.tbl.RowsCount = i.rowsCount
 
-	// write and save table
-	buf := bytes.NewBuffer(nil)
-	_, err = i.tbl.WriteTo(buf)
+	// encode table. The table object is what marks the table as present, so it
+	// is saved last, after the table index and profile
+	tblBuf := bytes.NewBuffer(nil)
+	_, err = i.tbl.WriteTo(tblBuf)
 	if err != nil {
 		return nil, err
 	}
-	sum, err := objects.SaveTable(i.db, buf.Bytes())
-	if err != nil {
-		return nil, err
-	}
-	i.logger.Info("saved table", "sum", sum)
+	sumArr := meow.Checksum(0, tblBuf.Bytes())
+	sum := sumArr[:]
 
 	// write and save table index
-	buf.Reset()
+	buf := bytes.NewBuffer(nil)
 	enc := objects.NewStrListEncoder(true)
 	_, err = objects.WriteBlockTo(enc, buf, tblIdx)
 	if err != nil {
@@ -230,6 +228,13 @@ func (i *Inserter) ingestTableFromBlocks(columns []string, pk []uint32) ([]byte,
 			return nil, err
 		}
 	}
+
+	// save table
+	sum, err = objects.SaveTable(i.db, tblBuf.Bytes())
+	if err != nil {
+		return nil, err
+	}
+	i.logger.Info("saved table", "sum", sum)
 
 	return sum, nil
 }
